@@ -33,8 +33,10 @@ def safe(fn, out, *args):
     return e3.Obligations("-")
 
 
-def summary(obl):
-    return {"e3_obligations": obl.total, "e3_discharged": obl.discharged, "e3_functions": obl.functions, "e3_solver_time_s": round(obl.solver_time, 2)}
+def summary(*obls):
+    obls = [o for o in obls if o is not None]
+    return {"e3_obligations": sum(o.total for o in obls), "e3_discharged": sum(o.discharged for o in obls), "e3_functions": sorted({f for o in obls for f in o.functions}),
+            "e3_solver_time_s": round(sum(o.solver_time for o in obls), 2)}
 
 
 def c18_arity(out):
@@ -56,6 +58,45 @@ def c18_arity(out):
     e3.coverage_check(ex, obl, "build_deref_for_struct", res, pre=pre)
     for label, m, info in obl.failed:
         probes.structural(out, "deref-arity", "build_deref_for_struct accepts / rejects the wrong number of fields (model: len(fields) = %s)" % m.eval(n, model_completion=True), 'C18.arity')
+    return obl
+
+
+def c18_signature(out):
+    """what build_deref_for_struct emits for a single-field struct: `type Target = <the field's type>;` and methods that return `&` / `&mut` of that same type and whose body
+    is `&self.<the field>` / `&mut self.<the field>` (token streams as objects; the tokens are the same for every field type). A differing emission is confirmed natively."""
+    from .mir import tokens as tk
+    from .mir.streams import sid
+    from .replay_e3 import unlocal
+    eng = engine()
+    obl = e3.Obligations("C18")
+    ex = eng.executor(slice_bound=1, opaque_local={"DeriveItemKind::to_path", "WhereClauseBuilder::new", "WhereClauseBuilder::build", "DeriveEntry::push_bounds_to", "FieldEntry::member", "ref_elem"})
+    ex.trace = _Everything()
+    ex.unique_streams = True
+    fn = eng.find("build_deref_for_struct")
+    k = ex.ivar("disc(e.kind)", 0, 9)
+    n = ex.ivar("len(fields)", 0, 1)
+    res = ex.run(fn, eng.args_for(fn), pre=[k >= 8, n == 1])
+    obl.note_paths("build_deref_for_struct[tokens]", res, ex)
+    ty = r"<(?:sym:fields\.\[0\]\.field\.ty|opaque:ref_elem\(sym:fields\.\[0\]\.field\.ty\))>"
+    mem = r"<opaque:FieldEntry::member\(sym:fields\.\[0\]\)>"
+    want = {8: r"\{ type Target = <sym:fields\.\[0\]\.field\.ty> ; fn deref \( & self \) -> & %s \{ & self \. %s \} \}$" % (ty, mem),
+            9: r"\{ fn deref_mut \( & mut self \) -> & mut %s \{ & mut self \. %s \} \}$" % (ty, mem)}
+    for r in res:
+        if r.kind != "return" or is_err(r):
+            continue
+        obl.total += 1
+        try:
+            st = tk.render(r.events)
+            got = unlocal(tk.text(st.get(sid(ex.summ(mx.State(), r.value)), [])))
+        except Exception as e:  # noqa
+            out.inconclusive.append("fn=build_deref_for_struct[tokens] reason=%s" % str(e)[:200])
+            continue
+        kinds = [kk for kk in (8, 9) if ex.feasible_pc(list(r.pc) + [k == kk])] if hasattr(ex, "feasible_pc") else [kk for kk in (8, 9) if ("disc(e.kind) == %d" % kk) in " ".join(str(c) for c in r.pc)]
+        if len(kinds) == 1 and re.search(want[kinds[0]], got):
+            obl.discharged += 1
+        else:
+            probes.structural(out, "deref-signature|%s" % ("Deref" if kinds == [8] else "DerefMut" if kinds == [9] else kinds),
+                              "build_deref_for_struct emits `%s`, not the field's own type in Target / the method signature and `&self.<field>` in the body" % got[-260:], "C18.signature")
     return obl
 
 
